@@ -1,4 +1,5 @@
 import Txtpp.Model.Fs
+import Txtpp.Lemmas.ShellFacts
 /-!
 # Property C17 — run commands execute in the source's directory with the documented contract
 
@@ -47,5 +48,14 @@ theorem cwd_is_source_dir (cfg : Cfg) (dir : Path) (name : List Char) (fs : FS) 
   simp [runAct]
 
 example : display [['b']] [['b'], ['s', 'u', 'b'], ['a']] = [['s', 'u', 'b'], ['a']] := by decide
+
+/-- whatever shell is configured (`-s`, split at white space; empty = `sh -c`) and whatever the command
+contains, the child process receives the shell's fixed arguments followed by the command as exactly
+one argument - nothing is re-split or re-quoted -/
+theorem command_is_one_verbatim_argument (shellCmd command : List Char) :
+    (shellArgv shellCmd command).getLast? = some command ∧
+    (shellArgv shellCmd command).length = (shellOf shellCmd).2.length + 2 := shellArgv_last shellCmd command
+
+theorem default_shell_is_sh_c : shellOf [] = ("sh".toList, ["-c".toList]) := shellOf_default
 
 end C17
